@@ -24,7 +24,8 @@ Inductive zcmd :=
 | ZCremrangebyscore (lo hi : option sbound)       (* None = the bound did not parse (errInvalidRange) *)
 | ZCremrangebylex (lo hi : option bytes) (lopen ropen : bool)
 | ZCclear
-| ZCinvalid.                                      (* malformed arguments: the handler returns an error *)
+| ZCinvalid                                       (* malformed arguments: the handler returns an error *)
+| ZCfixkey.                                       (* ZFIXKEY: the repair command *)
 Inductive zqry :=
 | ZQcard | ZQkeyexist | ZQscore (m : bytes)
 | ZQrange (rev : bool) (start stop : Z) (withscores : bool)
@@ -138,6 +139,15 @@ Definition zparse_limit (total start stop : Z) : Z * Z :=
 Definition zstep (compact : bool) (ts : Z) (key : bytes) (c : zcmd) (z : zcoll) : zcoll * reply :=
   match c with
   | ZCinvalid => (z, RErr)
+  | ZCfixkey =>
+      (* ZFixKey: the stored size against the number of entries ZRANGE 0 -1 finds in the score index, read at
+         the entry's timestamp (fix: it read with the wall clock); ZRANGE stops at the stored size, so the size can
+         only be lowered; above MAX_BATCH_NUM the range read fails and nothing happens.  The handler drops every
+         error and replies nil; the table key counter is not touched. *)
+      let n := zsize z in
+      if max_batch_num <? n then (z, RNil)
+      else let cnt := Z.of_nat (length (firstn (Z.to_nat n) (index_scan (zver z) (z_index z)))) in
+           if cnt =? n then (z, RNil) else (zwith_size (zver z) cnt z, RNil)
   | ZCadd ps =>
       match ps with
       | [] => (z, RInt 0)
@@ -353,6 +363,7 @@ Definition parse_z (n : bytes) (rest : list bytes) : option (zcmd + zqry) :=
     | _ => None
     end
   else if is_name n [122;99;108;101;97;114] then match rest with [] => Some (inl ZCclear) | _ => None end
+  else if is_name n [122;102;105;120;107;101;121] then match rest with [] => Some (inl ZCfixkey) | _ => None end
   else if is_name n [122;99;97;114;100] then match rest with [] => Some (inr ZQcard) | _ => None end
   else if is_name n [122;107;101;121;101;120;105;115;116] then match rest with [] => Some (inr ZQkeyexist) | _ => None end
   else if is_name n [122;115;99;111;114;101] then match rest with [m] => Some (inr (ZQscore m)) | _ => None end
